@@ -24,6 +24,7 @@
 
 #include <sys/resource.h>
 
+#include <atomic>
 #include <memory>
 #include <thread>
 #include <vector>
@@ -93,7 +94,7 @@ namespace Pistache::Tcp
 
     private:
         Address addr_;
-        int listen_fd = -1;
+        std::atomic<int> listen_fd { -1 };
         int backlog_  = Const::MaxBacklog;
         NotifyFd shutdownFd;
         Polling::Epoll poller;
